@@ -64,6 +64,11 @@ func c17Skip(cs *drv.Case, b []byte, t byte) {
 	if pr.OK && pr.MaxNesting >= 64 {
 		acc = map[int32]bool{thrift.DEPTH_LIMIT: true}
 	}
+	if pr.DeepOff >= 0 {
+		// a 65th nested container is met (in input order) before anything else is wrong:
+		// the depth limit is the cause, whatever comes later
+		acc = map[int32]bool{thrift.DEPTH_LIMIT: true}
+	}
 	id, ok := typeID(err)
 	class := fmt.Sprint(causeNames(pr.Causes))
 	if pr.MaxNesting >= 64 {
@@ -167,6 +172,24 @@ func c17Message(cs *drv.Case, b []byte) {
 
 var c17Errs = []error{io.EOF, io.ErrUnexpectedEOF, doubles.ErrCustom, errors.New("connection reset by peer")}
 
+// the last stream failure seen by this worker: the error value a caller may still hold while the
+// pooled reader that produced it is being reused
+var c17Prev struct {
+	err  error
+	src  error
+	text string
+}
+
+func c17CheckPrev(cs *drv.Case) {
+	if c17Prev.err == nil {
+		return
+	}
+	if !errors.Is(c17Prev.err, c17Prev.src) || c17Prev.err.Error() != c17Prev.text {
+		cs.Fail("retained-error-changed", M{"source_err": c17Prev.src.Error()}, M{"was": c17Prev.text, "now": c17Prev.err.Error(), "message": "an error returned by an earlier, finished decode changed after the pooled reader was reused"})
+	}
+	c17Prev.err = nil
+}
+
 // c17Stream: every BufferReader operation on a valid stream cut at `cut` with source error e.
 func c17Stream(cs *drv.Case, vals []cval, stream []byte, cut int, e error, withData bool, sched int) {
 	src := &doubles.Source{Data: stream, Len: len(stream), ErrAt: cut, Err: e, WithData: withData, Sched: sched, R: cs.R, ZeroMax: 1, Budget: 10*len(stream) + 100000}
@@ -189,7 +212,8 @@ func c17Stream(cs *drv.Case, vals []cval, stream []byte, cut int, e error, withD
 		if _, isPE := typeID(ferr); isPE {
 			cs.C.Obs("stream failures that are protocol exceptions", 1)
 		}
-		// also through Skip of a matching type
+		c17CheckPrev(cs)
+		c17Prev.err, c17Prev.src, c17Prev.text = ferr, e, ferr.Error()
 		return
 	}
 }
@@ -247,6 +271,9 @@ func streamErr(v cval, r *thrift.BufferReader) error {
 func monC17(c *drv.Ctx) {
 	// (1) grammar-alphabet strings
 	maxLen := int(c.Pick(4, 6))
+	if c.Slow() {
+		maxLen = 4
+	}
 	for n := 1; n <= maxLen; n++ {
 		n := n
 		c.Stage(fmt.Sprintf("alphabet-len%d", n), gen.Pow(int64(len(gen.GrammarAlphabet)), n), true, func(cs *drv.Case) {
